@@ -25,18 +25,23 @@ Definition oseqb : option string -> option string -> bool := oeqb seqb.
 Definition ci_eqb (a b : cinfo) : bool :=
   oeqb lseqb (ccols a) (ccols b) && Bool.eqb (cforce a) (cforce b) && oseqb (cpub a) (cpub b).
 
+(* the container data of an operand; the column narrowing of a table / common table expression that is referred to by name
+   (not forced) is never looked at, so it is not compared *)
+Definition ci_same (s : nearsql) (a b : cinfo) : bool :=
+  if is_table s && negb (cforce a) then Bool.eqb (cforce a) (cforce b) && oseqb (cpub a) (cpub b) else ci_eqb a b.
+
 Fixpoint same_mod_names (a b : nearsql) : bool :=
   match a, b with
   | NTable n t, NTable n' t' => seqb n n' && terms_eqb t t'
   | NCte n k, NCte n' k' => seqb n n' && oseqb k k'
   | NUnary _ t s ci sfx _ _ _ k, NUnary _ t' s' ci' sfx' _ _ _ k' =>
-      terms_eqb t t' && same_mod_names s s' && ci_eqb ci ci' && lseqb sfx sfx' && oseqb k k'
+      terms_eqb t t' && same_mod_names s s' && ci_same s ci ci' && lseqb sfx sfx' && oseqb k k'
   | NBinary _ t s1 c1 j s2 c2 sfx _ k, NBinary _ t' s1' c1' j' s2' c2' sfx' _ k' =>
-      terms_eqb t t' && same_mod_names s1 s1' && ci_eqb c1 c1' && seqb j j' && same_mod_names s2 s2' && ci_eqb c2 c2'
+      terms_eqb t t' && same_mod_names s1 s1' && ci_same s1 c1 c1' && seqb j j' && same_mod_names s2 s2' && ci_same s2 c2 c2'
       && lseqb sfx sfx' && oseqb k k'
   | NRaw0 _ p sfx _ a k, NRaw0 _ p' sfx' _ a' k' => lseqb p p' && lseqb sfx sfx' && Bool.eqb a a' && oseqb k k'
   | NRaw1 _ p s ci sfx _ a k, NRaw1 _ p' s' ci' sfx' _ a' k' =>
-      lseqb p p' && same_mod_names s s' && ci_eqb ci ci' && lseqb sfx sfx' && Bool.eqb a a' && oseqb k k'
+      lseqb p p' && same_mod_names s s' && ci_same s ci ci' && lseqb sfx sfx' && Bool.eqb a a' && oseqb k k'
   | _, _ => false
   end.
 
@@ -50,3 +55,15 @@ Definition pair_ok (fl : flags) (c1 c2 : container) : bool :=
   end.
 Definition cache_sound_dec (fl : flags) (q : nearsql) : bool :=
   forallb (fun c1 => forallb (pair_ok fl c1) (conts q)) (conts q).
+
+(* the same condition, not asked of pairs of sub-queries that both contain a join (an operand alias): those are the pairs for
+   which the invariant is an assumption about the engine.  Used by the check to tell the two situations apart. *)
+Fixpoint has_alias (q : nearsql) : bool :=
+  match q with
+  | NTable _ _ | NCte _ _ | NRaw0 _ _ _ _ _ _ => false
+  | NUnary _ _ s _ _ _ _ _ _ | NRaw1 _ _ s _ _ _ _ _ => has_alias s
+  | NBinary _ _ s1 c1 _ s2 c2 _ _ _ =>
+      (match cpub c1, cpub c2 with None, None => false | _, _ => true end) || has_alias s1 || has_alias s2
+  end.
+Definition cache_sound_dec_but_joins (fl : flags) (q : nearsql) : bool :=
+  forallb (fun c1 => forallb (fun c2 => pair_ok fl c1 c2 || (has_alias (fst c1) && has_alias (fst c2))) (conts q)) (conts q).
